@@ -199,9 +199,21 @@ struct Env {
     if (auto it = lib.data.find("D9"); it != lib.data.end()) d9data = it->second;
   }
   Env(const Env&) = delete;
+  // alternative bodies of the term functions (same signature and result type): bit 1 of the variant selects them, so
+  // that the CONTEXT changes between two inputs while the long-lived analysers stay the same objects
+  std::map<std::string, rl::SyntaxTree> mainAsts, altAsts;
+  void addAlternative(const FuncDef& f, const EP& altBody) {
+    std::vector<EP> decl;
+    for (auto& a : f.args) decl.push_back(mk(TID::NT_ARG_DECL, {mkName(TID::ID_LOCAL, a.first), domainExpr(a.second)}));
+    EP def = mk(TID::PUNC_DEFINE, {mkName(f.result.k == Ty::LOGIC ? TID::ID_PREDICATE : TID::ID_FUNCTION, f.name), mk(TID::NT_FUNC_DEFINITION, {mk(TID::NT_ARGUMENTS, decl), altBody})});
+    rl::Parser p;
+    if (!p.Parse(render(def), rl::Syntax::MATH)) return;
+    if (auto it = lib.asts.find(f.name); it != lib.asts.end()) { mainAsts.emplace(f.name, it->second); altAsts.emplace(f.name, p.AST()); }
+  }
   void setVariant(int v) {
+    for (auto& [name, tree] : (v & 2) ? altAsts : mainAsts) lib.asts.insert_or_assign(name, tree);
     if (!d9type.has_value()) return;
-    if (v == 0) { lib.types.insert_or_assign("D9", *d9type); if (d9data) lib.data.insert_or_assign("D9", *d9data); }
+    if ((v & 1) == 0) { lib.types.insert_or_assign("D9", *d9type); if (d9data) lib.data.insert_or_assign("D9", *d9data); }
     else { lib.types.erase("D9"); lib.data.erase("D9"); }
   }
   rl::ValueClassContext vc() const {
@@ -368,9 +380,23 @@ std::string classOf(const Rec& fresh, const Input& in) {
 }
 
 // ------------------------------------------------------------------------------------------------ the property
-Verdict historyProp(Ctx& c) {
+Verdict historyWith(Ctx& c, bool contextEdits) {
   TypedGen g(c);
   g.makeContext();
+  // context_history: every term function gets a second body; inputs call the functions often and the body in force changes between inputs
+  std::vector<std::pair<std::string, EP>> altBodies;
+  if (contextEdits) {
+    const auto allFuncs = g.G.funcs;
+    for (size_t i = 0; i < allFuncs.size(); ++i) {
+      const FuncDef& f = allFuncs[i];
+      g.G.funcs.assign(allFuncs.begin(), allFuncs.begin() + static_cast<long>(i));  // a body may call only functions defined before it (no recursion)
+      g.scope.clear(); g.everUsed.clear();
+      for (auto& a : f.args) { g.scope.push_back({a.first, a.second}); g.everUsed.insert(a.first); }
+      altBodies.emplace_back(f.name, f.result.k == Ty::LOGIC ? g.genLogic(2) : g.genTerm(f.result, 2));
+      g.scope.clear(); g.everUsed.clear();
+    }
+    g.G.funcs = allFuncs;
+  }
   if (c.coin()) { Global a; a.name = "A1"; a.type = Ty::Logic(); g.G.globals.push_back(a); }
   { Global d; d.name = "D9"; d.type = g.randType(2); d.value = g.randValue(d.type, 3); g.G.globals.push_back(d); }  // the global that comes and goes
   const bool lazy = c.coin();
@@ -386,7 +412,14 @@ Verdict historyProp(Ctx& c) {
     EP tree;
     std::string alias; EP definitionTree;
     switch (in.kind) {
-      case VALID: tree = genPlain(g, c); break;
+      case VALID:
+        if (contextEdits && !g.G.funcs.empty() && c.chance(2, 3)) {  // a call, often under card(): the value class of the body matters
+          g.scope.clear(); g.everUsed.clear();
+          const auto& f = c.oneof(g.G.funcs);
+          tree = g.makeCall(f, {}, c.ipick(1, 2));
+          if (f.result.isSet() && c.coin()) tree = mk(TID::GREATER_OR_EQ, {mk(TID::CARD, {tree}), mkInt(0)});
+        } else tree = genPlain(g, c);
+        break;
       case MUTANT: {
         tree = genPlain(g, c);
         std::string op; tree = mutate(c, tree, g.G, op); in.note = op;
@@ -416,7 +449,7 @@ Verdict historyProp(Ctx& c) {
     in.multiline = in.text.find('\n') != std::string::npos;
     const int hw = c.ipick(0, 19);
     in.hint = hw == 19 ? (in.ascii ? rl::Syntax::MATH : rl::Syntax::ASCII) : hw >= 17 ? rl::Syntax::UNDEF : (in.ascii ? rl::Syntax::ASCII : rl::Syntax::MATH);
-    in.ctxVariant = rare(c, 1, 5) ? 1 : 0;
+    in.ctxVariant = contextEdits ? c.ipick(0, 3) : (rare(c, 1, 5) ? 1 : 0);
     in.lexFirst = rare(c, 1, 3);
     in.abandonLex = rare(c, 1, 8);
     in.extract = rare(c, 1, 3);
@@ -450,7 +483,7 @@ Verdict historyProp(Ctx& c) {
   for (int i = 0; i < n; ++i) {
     const auto& in = ins[static_cast<size_t>(i)];
     c.show << "  #" << i << " " << kKind[in.kind] << (in.note.empty() ? "" : "(" + in.note + ")") << (in.multiline ? " multiline" : "") << " hint=" << synName(in.hint)
-           << (in.ctxVariant ? " ctx=without-D9" : "") << (in.lexFirst ? " lex" : "") << (in.abandonLex ? " abandon-lex" : "") << (in.extract ? " extract" : "") << (in.convert ? " convert" : "");
+           << ((in.ctxVariant & 1) ? " ctx=without-D9" : "") << ((in.ctxVariant & 2) ? " ctx=alternative-function-bodies" : "") << (in.lexFirst ? " lex" : "") << (in.abandonLex ? " abandon-lex" : "") << (in.extract ? " extract" : "") << (in.convert ? " convert" : "");
     if (in.smode != EXPR_ONLY) c.show << " cst=(" << in.alias << "," << static_cast<int>(in.cst) << (in.definition == in.text ? "" : in.definition.empty() ? ",<empty>" : ",'" + esc(in.definition) + "'") << ")" << (in.smode == CST_ONLY ? " cst-only" : "");
     if (!in.litText.empty()) c.show << " lit=" << in.litText;
     c.show << " : '" << esc(in.text) << "'\n";
@@ -460,6 +493,7 @@ Verdict historyProp(Ctx& c) {
 
   Env env(g.G, lazy);
   if (!env.lib.buildError.empty()) return pbt::discard("function-text");
+  for (auto& [name, body] : altBodies) if (const FuncDef* f = g.G.func(name)) env.addAlternative(*f, body);
 
   std::vector<Rec> ra(static_cast<size_t>(n)), rb(static_cast<size_t>(n)), rf(static_cast<size_t>(n));
   // fresh objects first: this pass also decides which inputs the interpreter sees
@@ -524,11 +558,15 @@ Verdict historyProp(Ctx& c) {
   }
   for (size_t i = 0; i < rf.size(); ++i) {
     if (!ins[i].evalOK) c.count("interpreter-skipped-cost");
-    if (ins[i].ctxVariant) c.label("ctx:without-D9");
+    if (ins[i].ctxVariant & 1) c.label("ctx:without-D9");
+    if (ins[i].ctxVariant & 2) c.label("ctx:alternative-function-bodies");
     if (!ins[i].litText.empty()) c.label("obj:literal_t");
   }
   return pbt::pass();
 }
+
+Verdict historyProp(Ctx& c) { return historyWith(c, false); }
+Verdict contextHistoryProp(Ctx& c) { return historyWith(c, true); }
 
 }  // namespace
 
@@ -536,5 +574,7 @@ int main(int argc, char** argv) {
   std::vector<pbt::Prop> props;
   props.push_back({"history", historyProp, 1200, 5000, false, false,
                    "sequences of 3-30 inputs over one typed context; long-lived objects in sequence order and in a rotated order vs fresh objects per call"});
+  props.push_back({"context_history", contextHistoryProp, 600, 4000, false, false,
+                   "the same with a context that changes between inputs (a global comes and goes, every term function switches between two bodies) and inputs that mostly call those functions"});
   return pbt::main(argc, argv, "C18", props);
 }
